@@ -36,7 +36,11 @@ func genWorkload(p wlParams) *rapid.Generator[Case] {
 			c.Cfg.Mode = 1 // Merge is not supported in sparse mode
 		}
 		gop := genMixedOp(structs, buckets, kvKeys, sKeys, true)
-		n := rapid.IntRange(2, p.MaxSteps).Draw(t, "nsteps")
+		maxSteps := p.MaxSteps
+		if p.MergePct > 0 && c.Cfg.Seg <= 200 && rapid.IntRange(0, 5).Draw(t, "manysegs") == 3 {
+			maxSteps *= 3 // more than ten segments before a Merge (file ids with two digits)
+		}
+		n := rapid.IntRange(2, maxSteps).Draw(t, "nsteps")
 		for i := 0; i < n; i++ {
 			r := rapid.IntRange(0, 99).Draw(t, "stepkind")
 			switch {
@@ -44,6 +48,8 @@ func genWorkload(p wlParams) *rapid.Generator[Case] {
 				c.Steps = append(c.Steps, Step{K: "reopen"})
 			case r < p.ReopenPct+p.MergePct:
 				c.Steps = append(c.Steps, Step{K: "merge"})
+			case structs && p.MergePct > 0 && rapid.IntRange(0, 15).Draw(t, "emptied") == 9:
+				c.Steps = append(c.Steps, genAfterMergeOnEmptied(t, buckets[0], c.Cfg.Seg)...)
 			case structs && rapid.IntRange(0, 11).Draw(t, "noopatcommit") == 7:
 				c.Steps = append(c.Steps, genNoopAtCommit(t, buckets[0], i)...)
 			default:
